@@ -90,16 +90,52 @@ Example C17_lookup_order_witness :
 Proof. vm_compute. reflexivity. Qed.
 Print Assumptions C17_lookup_order_witness.
 
-(* Identity of reference targets.  FULL statement (kept visible): after a successful load every
-   reference of every loaded model points to an element of the model registered in all_models
-   for the target's file.  PROVED here: a resolved reference points to an element with the
-   referenced name in the own model, one of the model's local models or a builtin model; the
-   remaining step (every local model entry equals the all_models entry of its file, by
-   load_model's construction) is not carried through the cleanup invariant and is checked on the
-   implementation by the correspondence and the identity oracle instead. *)
-Theorem C17_identity_partial : forall c s x n t i,
-  resolve_name c s x n = Some (t, i) ->
-  (t = x \/ In t (map snd (local_of x s)) \/ In t (cbuiltins c)) /\
-  exists fc, cont_of t s = Some fc /\ nth_error (felems fc) i = Some n.
-Proof. exact resolve_name_in. Qed.
-Print Assumptions C17_identity_partial.
+(* Identity of reference targets.  At every point of every history (loads that succeed or fail, file
+   rewrites) a successful load leaves every model x of the result (get_included_models) such that whatever a
+   name n resolves to from x - this is what the resolution loop stores in the reference - is an element
+   named n of: x itself, a builtin model, or THE model registered in all_models for the target's own file.
+   With C17_histories_well_formed (one model per file) this is "every reference to an element of file f
+   points into the single model of f". *)
+Theorem C17_identity : forall c builtins fs0 ops fs f m s' x n t i,
+  let s := run_hist c fs0 (init_state builtins) ops in
+  load_main fs c f s = (inr m, s') -> In x (included m s') -> resolve_name c s' x n = Some (t, i) ->
+  (t = x \/ In t (cbuiltins c) \/ dget (file_of t s') (allm s') = Some t) /\
+  exists fc, cont_of t s' = Some fc /\ nth_error (felems fc) i = Some n.
+Proof. exact identity_in_history. Qed.
+Print Assumptions C17_identity.
+
+(* the same for any well-formed state whose registered models' local models are registered *)
+Theorem C17_identity_any_state : forall fs c f s m s' x n t i,
+  Stable s -> LocReg s -> load_main fs c f s = (inr m, s') ->
+  In x (included m s') -> resolve_name c s' x n = Some (t, i) ->
+  t = x \/ In t (cbuiltins c) \/ dget (file_of t s') (allm s') = Some t.
+Proof. exact identity_after_load. Qed.
+Print Assumptions C17_identity_any_state.
+
+(* two targets in registered models of the same file are in the same model object *)
+Theorem C17_same_file_same_model : forall s t1 t2,
+  dget (file_of t1 s) (allm s) = Some t1 -> dget (file_of t2 s) (allm s) = Some t2 ->
+  file_of t1 s = file_of t2 s -> t1 = t2.
+Proof. exact registered_same_file_same_model. Qed.
+Print Assumptions C17_same_file_same_model.
+
+(* every local_models entry of every model of a successful load's result is the all_models entry of that file *)
+Theorem C17_local_models_are_registered : forall fs c f s m s',
+  Stable s -> LocReg s -> load_main fs c f s = (inr m, s') ->
+  forall x g t, In (g, t) (local_of x s') -> (In x (map snd (allm s')) \/ x = m) -> dget g (allm s') = Some t.
+Proof. exact load_main_ok_registered. Qed.
+Print Assumptions C17_local_models_are_registered.
+
+(* non-vacuity: diamond 0 -> {1, 2}, 1 -> 2, 2 -> 0 (cycle): both references to e102 (from 0 and from 1)
+   resolve into model 2, the registered model of file 2 *)
+Example C17_identity_witness :
+  let fs := [mkFile [[1]; [2]] [100%N] [102%N] false false false;
+             mkFile [[2]] [101%N] [102%N] false false false;
+             mkFile [[0]] [102%N] [100%N] false false false] in
+  let c := init_cfg true false [] in
+  let r := load_main fs c 0 (run_hist c fs (init_state []) []) in
+  fst r = inr 0 /\ included 0 (snd r) = [0; 1; 2] /\
+  resolve_name c (snd r) 0 102%N = Some (2, 0) /\ resolve_name c (snd r) 1 102%N = Some (2, 0) /\
+  dget (file_of 2 (snd r)) (allm (snd r)) = Some 2.
+Proof. vm_compute. repeat split; reflexivity. Qed.
+Print Assumptions C17_identity_witness.
